@@ -1,8 +1,9 @@
 """What a handful of fixed inputs give, as one JSON document on stdout.
 
-Run twice by C17's `optimised-interpreter` check -- in-process and in a child
-started with ``python -O`` -- and compared: nothing the library computes may
-depend on its ``assert`` statements being executed.
+Run by the `interpreter-flags` checks (C16, C17) in-process and in children
+started with ``python -O`` and ``python -bb`` and compared: nothing the
+library computes may depend on its ``assert`` statements being executed, or
+on a bytes object being compared with a str.
 
     python [-O] -m dxv.ocheck          (VERIF_REPO selects the tree)
 """
@@ -77,7 +78,99 @@ def compute():
         except Exception as e:
             out[name + ':to_bytes'] = 'raised %s' % type(e).__name__
 
+    # the line splitter on its own
+    newlines = [b'\n', b'\r\n', b'\n\x00', b'\r\x00\n\x00', b'\x00\n',
+                b'\x00\r\x00\n', b'\n\x00\x00\x00',
+                b'\r\x00\x00\x00\n\x00\x00\x00', b'\x25', b'\r\x25']
+    split = ns.text.split_lines
+
+    for nl in newlines:
+        battery = [nl, b'a', b'a' + nl, b'a' + nl + b'b', nl + nl,
+                   b'a' + nl + nl + b'b' + nl, b'\r' + nl, nl + b'\n',
+                   b'x' * 100 + nl + b' y', b' ' + nl + b' ' + nl]
+
+        for i, data in enumerate(battery):
+            for keep in (True, False):
+                try:
+                    res = repr(split(data, nl, keep))
+                except Exception as e:
+                    res = 'raised %s' % type(e).__name__
+
+                out['split:%s:%d:%d' % (nl.hex(), i, keep)] = _digest(res)
+
+    # the writer
+    for enc in ('utf-8', 'utf-16', 'cp037'):
+        stream = io.BytesIO()
+
+        try:
+            w = ns.DiffXWriter(stream, encoding=enc)
+            w.write_preamble('summary\n\nbody \xe9', indent=2)
+            w.write_meta({'k': [1, None, 'v']})
+            w.new_change(encoding='latin-1')
+            w.write_preamble('c\r\nd', line_endings='dos')
+            w.new_file()
+            w.write_meta({'path': 'f'}, encoding='utf-32-le')
+            w.write_diff(b'--- a\n+++ b\n@@ -1 +1 @@\n-x\n+y')
+            res = stream.getvalue()
+        except Exception as e:
+            res = 'raised %s' % type(e).__name__
+
+        out['writer:%s' % enc] = _digest(res)
+
+        try:
+            lines = b'--- a\n+++ b\n@@ -1,2 +1,2 @@ ctx\n-x\n+y\n z\n'
+            out['hunks:%s' % enc] = _digest(sorted(
+                ns.unified_diffs.get_unified_diff_hunks(
+                    lines.split(b'\n')).items()))
+        except Exception as e:
+            out['hunks:%s' % enc] = 'raised %s' % type(e).__name__
+
     return out
+
+
+def compare(st, prefixes, HarnessError):
+    """Run the battery here and in children started with -O and with -bb;
+    report keys (restricted to ``prefixes``) whose results differ."""
+    import subprocess
+    here = compute()
+    env = dict(os.environ, PYTHONPATH=VERIF + os.pathsep +
+               os.environ.get('PYTHONPATH', ''), PYTHONDONTWRITEBYTECODE='1')
+    env.pop('PYTHONOPTIMIZE', None)
+    n = 0
+
+    for flag, name in (('-O', 'assert-statements'),
+                       ('-bb', 'bytes-str-comparisons')):
+        p = subprocess.run([sys.executable, flag, '-m', 'dxv.ocheck'],
+                           env=env, cwd=VERIF, stdout=subprocess.PIPE,
+                           stderr=subprocess.PIPE, timeout=600)
+
+        if p.returncode != 0:
+            raise HarnessError('python %s -m dxv.ocheck failed:\n%s' % (
+                flag, p.stderr.decode('utf-8', 'replace')[-2000:]))
+
+        there = json.loads(p.stdout.decode('utf-8'))
+
+        if flag == '-O' and (not there['optimised'] or not __debug__):
+            raise HarnessError('the -O comparison needs one optimised and '
+                               'one ordinary interpreter')
+
+        keys = [k for k in sorted(set(here) | set(there['results']))
+                if k.split(':')[0] in prefixes or
+                (k.split(':')[1:2] and
+                 k.split(':')[1].split('@')[0].split('+')[0] in prefixes)]
+        diff = [k for k in keys if here.get(k) != there['results'].get(k)]
+        n += len(keys)
+
+        if diff:
+            k = diff[0]
+            st.violation('results-depend-on-%s' % name,
+                         '%d of %d results differ under python %s, e.g. '
+                         '%s: %s vs %s' % (len(diff), len(keys), flag, k,
+                                           here.get(k),
+                                           there['results'].get(k)),
+                         {'key': k, 'flag': flag})
+
+    return n
 
 
 if __name__ == '__main__':
